@@ -401,7 +401,7 @@ func genCodecSrc(repo string) (string, error) {
 		v := false
 		if fd := FindFunc(f, "Frame", "SetData"); fd != nil {
 			s := src(fset, fd.Body)
-			v = strings.Contains(s, "if r.content != data {") && strings.Contains(s, "r.rawData = nil") && strings.Contains(s, "r.DataLen = uint32(data.Len())") && strings.Contains(s, "r.payload = data.Bytes()")
+			v = (strings.Contains(s, "if r.content != data {") || strings.Contains(s, "if r.content != data || payloadRewritten(r.payload, data) {")) && strings.Contains(s, "r.rawData = nil") && strings.Contains(s, "r.DataLen = uint32(data.Len())") && strings.Contains(s, "r.payload = data.Bytes()")
 			if !v && s != "{ r.content = data r.payload = data.Bytes() r.DataLen = uint32(data.Len()) }" {
 				unknown("dubbo SetData", s)
 			}
@@ -464,7 +464,7 @@ func genCodecSrc(repo string) (string, error) {
 		}
 		if fd := FindFunc(f, "", "decodeFrame"); fd != nil {
 			b := src(fset, fd.Body)
-			for _, want := range []string{"frameLen := HeaderLen + frame.DataLen", "body := make([]byte, frameLen) copy(body, dataBytes[:frameLen]) frame.payload = body[HeaderLen:]", "data.Drain(int(frameLen))"} {
+			for _, want := range []string{"frameLen := HeaderLen + frame.DataLen", "body := make([]byte, frameLen) copy(body, dataBytes[:frameLen])", "frame.Magic = body[MagicIdx:FlagIdx] frame.payload = body[HeaderLen:]", "data.Drain(int(frameLen))"} {
 				if !strings.Contains(b, want) {
 					unknown("dubbo decodeFrame", want)
 				}
@@ -579,7 +579,11 @@ func genCodecSrc(repo string) (string, error) {
 		v := false
 		if fd := FindFunc(f, "streamConn", "Dispatch"); fd != nil {
 			b := src(fset, fd.Body)
+			guard := false
 			switch {
+			case strings.Contains(b, "if closed := sc.handleError(streamCtx, frame, err); closed { return } if buf.Len() >= before { return } sc.ctxManager.Next() continue }") &&
+				strings.Contains(b, "before := buf.Len() frame, err := sc.protocol.Decode(streamCtx, buf)"):
+				v, guard = true, true
 			case strings.Contains(b, "if closed := sc.handleError(streamCtx, frame, err); closed { return } sc.ctxManager.Next() continue }"):
 				v = true
 			case strings.Contains(b, "sc.handleError(streamCtx, frame, err) return }"):
@@ -587,6 +591,7 @@ func genCodecSrc(repo string) (string, error) {
 			default:
 				unknown("conn.go Dispatch", "error branch")
 			}
+			sw["dispatch_progress_guard"] = guard
 			for _, want := range []string{"if buf.Len() == 0 {", "frame, err := sc.protocol.Decode(streamCtx, buf)", "if frame == nil && err == nil {", "sc.handleFrame(streamCtx, xframe)", "sc.ctxManager.Next()"} {
 				if !strings.Contains(b, want) {
 					unknown("conn.go Dispatch", want)
@@ -597,7 +602,7 @@ func genCodecSrc(repo string) (string, error) {
 		}
 		if fd := FindFunc(f, "streamConn", "handleError"); fd != nil {
 			b := src(fset, fd.Body)
-			if !strings.Contains(b, "xframe.GetStreamType() == api.Request") || !strings.Contains(b, "OnDecodeError(stream.ctx, err, xframe.GetHeader())") || !strings.Contains(b, "sc.netConn.Close(api.NoFlush, api.LocalClose)") {
+			if !strings.Contains(b, "xframe.GetStreamType() == api.Request) && sc.serverCallbacks != nil {") || !strings.Contains(b, "OnDecodeError(stream.ctx, err, xframe.GetHeader())") || !strings.Contains(b, "sc.netConn.Close(api.NoFlush, api.LocalClose)") {
 				unknown("conn.go handleError", "decision table")
 			}
 		} else {
@@ -627,6 +632,50 @@ func genCodecSrc(repo string) (string, error) {
 			unknown("dubbothrift", "thriftMatcher missing")
 		}
 		sw["thrift_match_first_zero"] = v
+	}
+
+	// 12. SetData of bolt / boltv2 / dubbo / dubbo-thrift notices a body buffer rewritten in place; Clone keeps nil rawData
+	{
+		n := 0
+		for _, pk := range []string{"bolt", "boltv2"} {
+			fset, f, err := ParseGoFile(repo, "pkg/protocol/xprotocol/"+pk+"/command.go")
+			if err != nil {
+				return "", err
+			}
+			for _, recv := range []string{"Request", "Response"} {
+				if fd := FindFunc(f, recv, "SetData"); fd != nil {
+					b := src(fset, fd.Body)
+					if b == "{ if r.Content != data || (r.rawData != nil && contentRewritten(r.rawContent, data)) { r.ContentChanged = true r.Content = data } }" {
+						n++
+					} else if b != "{ if r.Content != data { r.ContentChanged = true r.Content = data } }" {
+						unknown(pk+" "+recv+".SetData", b)
+					}
+				}
+			}
+			if fd := FindFunc(f, "", "contentRewritten"); fd != nil {
+				if !strings.Contains(src(fset, fd.Body), "return len(b) != len(rawContent) || (len(b) > 0 && &b[0] != &rawContent[0])") {
+					unknown(pk+" contentRewritten", "body")
+				}
+			}
+		}
+		m := 0
+		for _, pk := range []string{"dubbo", "dubbothrift"} {
+			fset, f, err := ParseGoFile(repo, "pkg/protocol/xprotocol/"+pk+"/command.go")
+			if err != nil {
+				return "", err
+			}
+			if fd := FindFunc(f, "Frame", "SetData"); fd != nil {
+				if strings.Contains(src(fset, fd.Body), "if r.content != data || payloadRewritten(r.payload, data) {") {
+					m++
+				}
+			}
+			if fd := FindFunc(f, "Frame", "Clone"); fd != nil {
+				if strings.Contains(src(fset, fd.Body), "if r.rawData != nil { clone.rawData = make([]byte, len(r.rawData))") {
+					m++
+				}
+			}
+		}
+		sw["setdata_sees_inplace_rewrite"] = n == 4 && m == 4
 	}
 
 	names := make([]string, 0, len(sw))
